@@ -4,11 +4,12 @@ import json, os, shutil, subprocess, sys
 sys.path.insert(0, os.path.dirname(os.path.abspath(__file__)))
 import mutscan
 mid = int(sys.argv[1])
+ops = int(sys.argv[2]) if len(sys.argv) > 2 else 1
 ms = []
 for f in mutscan.FILES:
-    ms += mutscan.mutants_of(f, open(os.path.join("/repo", f), encoding="utf-8").read())
+    ms += (mutscan.mutants_of2 if ops == 2 else mutscan.mutants_of)(f, open(os.path.join("/repo", f), encoding="utf-8").read())
 m = ms[mid]
-d = f"/tmp/sc/m{mid}"
+d = f"/tmp/sc/m{ops}_{mid}" if ops != 1 else f"/tmp/sc/m{mid}"
 shutil.rmtree(d, ignore_errors=True)
 os.makedirs(d)
 for x in ("ascmhl", "xsd"):
